@@ -50,6 +50,11 @@ CHECKS = {
     category="model_checking", design_ref="4 C10",
     text="TLC explores the abstract extended-real flow (-inf, finite, log(1e-100), +-1.8e308 from nan_to_num, +inf, nan) of one structurally impossible cell through MD/RDA/IG (0-2 iterations, early exits, mle with its 1e-100 smoothing) and warm/cold histories of length <= 3 mixing solvers, checking that no returned representation gives it mass and NaN is unreachable; every row of the transfer table of Factor +, -, scalar*, CliqueVector - is executed on real Factors. End to end, zero sets on a measured clique, a sub-clique and an unmeasured pair (scattered cells, whole rows/columns that kill a separator value) are estimated with every solver through cold, warm, shrinking and growing histories; in-clique and out-of-clique answers, the full vector and synthetic records must give the declared cells mass <= 1e-12 x total, sum to total and contain no NaN.",
     note="Assumes finite values stay finite (no overflow by magnitude). Synthetic data checked with 200 rows."),
+ "C13": dict(
+    technique="TLA+ model of the engine object's fields, the reads/writes of each estimate call and the hand-off of result objects (spec/est/EngineHistory.tla; HistoryFree, SnapshotsStable) model-checked by TLC; every enumerated call history replayed on one engine against fresh engines, snapshots and deep copies of the inputs",
+    category="model_checking", design_ref="4 C13",
+    text="TLC enumerates every history of estimate calls of length 2 (thorough: plus 1500 of length 3) over 6 measurement lists (same structure with other answers, other query spectrum, grown, shrunk, re-spelled) x total omitted/given x MD/RDA/IG, cold and warm, checking that a cold call reads no field written by an earlier call and that no write targets a handed-out model. Each history is executed on ONE FactoredInference object with structural zeros: every cold result must equal a fresh engine's result on all attribute subsets and the joint (1e-10 x total), every model returned earlier is re-queried after each later call, returned objects must be distinct, and the caller's lists, arrays, zero specification and options are compared with deep copies. Warm engines must reach the cold optimum (loss within 1e-4) on grown or changed lists.",
+    note="The spec's write sets are a transcription of _setup/estimate; the replay is what binds them. eigsh start vectors absorbed by the 1e-10 slack."),
 }
 
 NOT_YET = "check not built yet (work in progress, see DESIGN.md section 8 build order)"
